@@ -59,10 +59,10 @@ type Tmpl struct {
 	XD      int    `json:"xd,omitempty"` // dashes on the extends tag
 }
 
-func Text(s string) *S        { return &S{K: "text", T: BStr(s)} }
-func Print(e *E) *S           { return &S{K: "print", E: e} }
-func SetS(n string, e *E) *S  { return &S{K: "set", Name: n, E: e} }
-func If(c *E, body ...*S) *S  { return &S{K: "if", Conds: []*E{c}, Bodies: [][]*S{body}} }
+func Text(s string) *S       { return &S{K: "text", T: BStr(s)} }
+func Print(e *E) *S          { return &S{K: "print", E: e} }
+func SetS(n string, e *E) *S { return &S{K: "set", Name: n, E: e} }
+func If(c *E, body ...*S) *S { return &S{K: "if", Conds: []*E{c}, Bodies: [][]*S{body}} }
 func For(v string, seq *E, body ...*S) *S {
 	return &S{K: "for", Name: v, E: seq, Body: body}
 }
